@@ -7,11 +7,12 @@ sys.path.insert(0, HERE)
 os.environ.setdefault('VERIF_DASSH_SRC', '/repo')
 
 props = [json.loads(l) for l in open(os.path.join(HERE, 'properties.jsonl'))]
+READY = json.load(open(os.path.join(HERE, 'ready.json')))
 checks, na = [], []
 for p in props:
     pid = p['id']
     path = os.path.join(HERE, 'vmon', 'checks', pid.lower() + '.py')
-    if not os.path.exists(path):
+    if not os.path.exists(path) or pid not in READY:
         na.append({'property_id': pid,
                    'reason': 'check not built yet (runtime monitoring applies; see DESIGN.md section 3)'})
         continue
